@@ -211,8 +211,13 @@ func (ps *specParser) parseExpr() Expr {
 			}
 			vars = append(vars, v.text)
 			ty := ""
+			star := ""
+			if ps.isOp("*") {
+				ps.next()
+				star = "*"
+			}
 			if ps.peek().kind == "id" {
-				ty = ps.next().text
+				ty = star + ps.next().text
 				if ps.isOp(".") {
 					ps.next()
 					ty += "." + ps.next().text
